@@ -18,6 +18,8 @@ import (
 	"sync/atomic"
 	"time"
 
+	"github.com/transparency-dev/witness/internal/verif/kit/asm"
+	"github.com/transparency-dev/witness/internal/verif/kit/asmunits"
 	"github.com/transparency-dev/witness/internal/verif/kit/ev"
 	"github.com/transparency-dev/witness/internal/verif/kit/gen"
 	"github.com/transparency-dev/witness/internal/verif/kit/refwitness"
@@ -44,6 +46,13 @@ func main() {
 	}
 	run.Floor("class:storage_failure", 200)
 	dir := run.Scratch()
+	if err := asm.SetupTLS(dir); err != nil {
+		run.Inconclusive("stub bastion certificate: " + err.Error())
+		return
+	}
+	// the assembled service: counters against requests sent and answers received, identical requests overlapping
+	run.Floor("assembled_identical_requests_overlapping", 8)
+	run.Units("asm_counters", run.Pick(4, 24), 4, func(unit int64, r *rand.Rand) { asmunits.Counters(run, unit, r, rec) })
 	run.Units("hist", run.Pick(2500, 50000), 0, func(unit int64, r *rand.Rand) {
 		o := wit.HistOpts{Gen: gen.Opts{NLogs: 1 + r.IntN(4), MaxSize: 40, Branches: 2 + r.IntN(2), ShareKeys: true, Big: unit%6 == 5, BigBits: 50}, MinSteps: 20, MaxSteps: 50, FaultProb: 0.06, DriverFaults: true, Dir: dir}
 		expected := map[string]int64{}
